@@ -234,7 +234,7 @@ func (*hdec) Run(rc *core.RunCtx) *core.RunResult {
 		base = &decBase{calls: out.calls, ok: out.v != nil}
 		// offsets read with a small width look like length or count fields
 		for _, r := range disk.readLog {
-			if r[1] >= 1 && r[1] <= 8 && len(base.lenLike) < 64 {
+			if r[1] >= 1 && r[1] <= 8 && len(base.lenLike) < 1024 {
 				base.lenLike = append(base.lenLike, r[0])
 			}
 		}
@@ -298,6 +298,11 @@ func (*hdec) Run(rc *core.RunCtx) *core.RunResult {
 				seen[o] = true
 				offs = append(offs, o)
 			}
+		}
+		if len(offs) > 300 {
+			// a window of the offsets: the whole list does not fit one run
+			w := t.Intn(len(offs) - 299)
+			offs = offs[w : w+300]
 		}
 		for _, o := range offs {
 			d := mut()
